@@ -190,7 +190,8 @@ func checkC03(tier, replay string) int {
 		runS3(r, x, []seccomp.Operation{seccomp.Equal, seccomp.BitsSet}, 3, 4, engine.Options{}, "S3(e<=3,c<=4,ops=Equal|BitsSet)")
 	}
 	runS3Big(r, x)
-	r.finish(fmt.Sprintf("all policies of scope S3: entry sequences of <=3 entries over 3 syscalls (numbers 0,1,59 on x86_64), entries unconditional or with a list of 1-2 conditions (arg in {0,1} x 8 operations x operands {nr(n1), nr(n2), 2^32+nr(n2)} chosen to collide with other entries' syscall numbers), same syscall repeated (merged OR lists) and repeated arguments included, in one group or split over two groups at every point, 2 defaults; each compiled by the real compiler and run on every cell of the exact partition (nr x arch x all argument words); tier %s bounds are in the scope labels of the samples; non-trivial = >= 2 distinct decisions", tier))
+	runS3Mixed(r)
+	r.finish(fmt.Sprintf("all policies of scope S3: entry sequences of <=3 entries over 3 syscalls (numbers 0,1,59 on x86_64), entries unconditional or with a list of 1-2 conditions (arg in {0,1} x 8 operations x operands {nr(n1), nr(n2), 2^32+nr(n2)} chosen to collide with other entries' syscall numbers), same syscall repeated (merged OR lists) and repeated arguments included, in one group or split over two groups at every point, 2 defaults; plus S3big (lists of up to 3 conditions, repeats) and S3mixed (groups of 1..100 unconditional names around powers of two together with conditional entries numbered below, inside and above their range, on all four architectures); each compiled by the real compiler and run on every cell of the exact partition (nr x arch x all argument words); tier %s bounds are in the scope labels of the samples; non-trivial = >= 2 distinct decisions", tier))
 	ctx.Assumptions = []string{"reference decision function refsem.Decide is the statement of C03", "cell partition soundness argument of DESIGN 2.4"}
 	return ctx.Finish()
 }
@@ -248,4 +249,49 @@ func runS3Big(r *compileRun, a *refsem.Arch) {
 		p := &seccomp.Policy{DefaultAction: seccomp.ActionAllow, Syscalls: []seccomp.SyscallGroup{g, {Action: seccomp.ActionTrap, Names: []string{n[1], n[2]}}}}
 		r.one("S3big/"+a.Name, a, p, engine.Options{})
 	})
+}
+
+// runS3Mixed: groups that mix many unconditional names with conditional entries whose syscall numbers lie below, inside and
+// above the range of the unconditional ones (a compiler that treats long name lists specially - ranges, tables, sorting -
+// must not lose the conditional entries), for every count of unconditional names around small powers of two.
+func runS3Mixed(r *compileRun) {
+	for _, a := range refsem.Archs() {
+		tab := a.SortedByNumber()
+		if len(tab) < 120 {
+			continue
+		}
+		lo, mid, hi := tab[0], tab[60], tab[len(tab)-1]
+		type job struct{ k, shape int }
+		var jobs []job
+		for _, k := range []int{1, 2, 7, 8, 9, 15, 16, 17, 31, 32, 33, 64, 100} {
+			for shape := 0; shape < 4; shape++ {
+				jobs = append(jobs, job{k, shape})
+			}
+		}
+		parallelFor(len(jobs), func(x int) {
+			j := jobs[x]
+			g := seccomp.SyscallGroup{Action: seccomp.ActionErrno}
+			// k unconditional names numbered strictly between lo and hi, without mid
+			for i := 0; len(g.Names) < j.k; i++ {
+				n := tab[10+i]
+				if n != mid {
+					g.Names = append(g.Names, n)
+				}
+			}
+			c1 := seccomp.ArgumentConditions{{Argument: 0, Operation: seccomp.Equal, Value: 3}}
+			c2 := seccomp.ArgumentConditions{{Argument: 1, Operation: seccomp.GreaterThan, Value: 1 << 32}, {Argument: 0, Operation: seccomp.NotEqual, Value: 3}}
+			switch j.shape {
+			case 0:
+				g.NamesWithCondtions = []seccomp.NameWithConditions{{Name: lo, Conditions: c1}, {Name: hi, Conditions: c2}}
+			case 1:
+				g.NamesWithCondtions = []seccomp.NameWithConditions{{Name: hi, Conditions: c1}, {Name: hi, Conditions: c2}, {Name: lo, Conditions: c2}}
+			case 2:
+				g.NamesWithCondtions = []seccomp.NameWithConditions{{Name: mid, Conditions: c1}, {Name: lo, Conditions: c1}}
+			default:
+				g.NamesWithCondtions = []seccomp.NameWithConditions{{Name: hi, Conditions: c2}}
+			}
+			p := &seccomp.Policy{DefaultAction: seccomp.ActionAllow, Syscalls: []seccomp.SyscallGroup{g, {Action: seccomp.ActionTrap, Names: []string{lo, mid, hi}}}}
+			r.one("S3mixed/"+a.Name, a, p, engine.Options{})
+		})
+	}
 }
